@@ -45,7 +45,7 @@ Let k := c_kind cfg.
 
 Lemma loop_ctx st tail acc :
   s_ctx st = true -> s_pick st || negb (s_timer st) = true ->
-  loop cfg sc e (st :: tail) acc = (DFail CCtx, []).
+  loop cfg sc e (st :: tail) acc = (DFail (CCtx (s_deadline st)), []).
 Proof. intros H1 H2. cbn [loop]. rewrite H1, H2. reflexivity. Qed.
 
 Lemma loop_timer st tail acc :
@@ -63,15 +63,15 @@ Lemma loop_io_error st tail acc b : no_select st -> s_rd st = RIoErr b ->
 Proof. intros [H1 H2] Hr. cbn [loop]. rewrite H1, H2, Hr. reflexivity. Qed.
 
 Lemma loop_oversize st tail acc b : no_select st ->
-  (s_rd st = RData b \/ s_rd st = REof b) ->
+  (s_rd st = RData b \/ s_rd st = RTimeout b \/ s_rd st = REof b) ->
   (max_len k < length (acc ++ firstn (room acc) b))%nat ->
   exists cls,
   loop cfg sc e (st :: tail) acc =
   with_trace (read_ev cfg (firstn (room acc) b) cls) (flush_then cfg sc (DFail CTooLong)).
 Proof.
   intros [H1 H2] Hr Hl. cbn [loop]. rewrite H1, H2. cbn [andb].
-  destruct Hr as [Hr|Hr]; rewrite Hr; cbn [delivered fst snd]; fold k; fold (room acc);
-    [exists 0|exists 2]; unfold read_ev; f_equal;
+  destruct Hr as [Hr|[Hr|Hr]]; rewrite Hr; cbn [delivered fst snd]; fold k; fold (room acc);
+    [exists 0|exists 1|exists 2]; unfold read_ev; f_equal;
     (match goal with |- context [(?a =? 3)] => change (a =? 3) with false end); cbn iota;
     replace (max_len k <? length (acc ++ firstn (room acc) b))%nat with true by lia; reflexivity.
 Qed.
@@ -163,18 +163,36 @@ Proof.
   rewrite loop_continue by exact Ha. cbn [app]. rewrite with_trace_app. reflexivity.
 Qed.
 
-(* the caller cancels (when the timer has fired too, select may take either case) *)
+(* the caller cancels, or the caller's own deadline expires: the context's error, whichever it is
+   (when the timer has fired too, select may take either case) *)
 Theorem fault_cancel chunks st tail :
   sc_steps sc = script_of chunks ++ st :: tail ->
   alive_through cfg (q_expected q) [] chunks ->
   s_ctx st = true ->
-  fst (client_do cfg sc (Some q)) = (if s_pick st || negb (s_timer st) then OFail CCtx else OFail CTimeout).
+  fst (client_do cfg sc (Some q)) =
+  (if s_pick st || negb (s_timer st) then OFail (CCtx (s_deadline st)) else OFail CTimeout).
 Proof.
   intros Hs Ha Hc. rewrite (client_after_prefix chunks (st :: tail) Hs Ha).
   destruct (s_pick st || negb (s_timer st)) eqn:E.
   - rewrite loop_ctx by assumption. reflexivity.
   - rewrite loop_timer; [reflexivity| |rewrite Hc, E; reflexivity].
     destruct (s_timer st); [reflexivity|]. rewrite orb_true_r in E. discriminate.
+Qed.
+
+(* ... in particular after a stall of any length, with the timer not fired: the caller's context
+   decides, and its error says whether it was cancelled or its own deadline expired *)
+Theorem fault_ctx_after_stall chunks w st tail :
+  sc_steps sc = script_of chunks ++ repeat quiet w ++ st :: tail ->
+  alive_through cfg (q_expected q) [] chunks ->
+  s_ctx st = true -> s_timer st = false ->
+  client_do cfg sc (Some q) =
+  (OFail (CCtx (s_deadline st)), write_trace cfg (q_bytes q) ++ reads_trace cfg chunks ++ quiet_trace cfg w).
+Proof.
+  intros Hs Ha Hc Ht. rewrite (client_after_prefix chunks _ Hs Ha).
+  rewrite loop_quiets.
+  2:{ specialize (Ha chunks [] (eq_sym (app_nil_r _))). cbn [app] in Ha. exact Ha. }
+  rewrite loop_ctx by (rewrite ?Ht, ?orb_true_r; auto).
+  rewrite !with_trace_app, with_trace_pair. cbn zeta. cbn [fst snd]. rewrite app_nil_r, <- ?app_assoc. reflexivity.
 Qed.
 
 (* the transport fails *)
@@ -198,7 +216,7 @@ Qed.
 Theorem fault_oversize chunks st tail b :
   sc_steps sc = script_of chunks ++ st :: tail ->
   alive_through cfg (q_expected q) [] chunks ->
-  no_select st -> (s_rd st = RData b \/ s_rd st = REof b) ->
+  no_select st -> (s_rd st = RData b \/ s_rd st = RTimeout b \/ s_rd st = REof b) ->
   (max_len k < length (payload chunks ++ firstn (buf_size k - length (payload chunks)) b))%nat ->
   fst (client_do cfg sc (Some q)) = OFail CTooLong \/
   (~ flush_ok cfg sc /\ fst (client_do cfg sc (Some q)) = OFail (CIo SiteFlush)).
